@@ -4,7 +4,7 @@
    the theorems cover every point at which rendering can fail and every chunking. *)
 From Coq Require Import String.
 From Verif Require Import Bytes Textproto SendErr RefServer SmtpSend SmtpSendGen.
-From VerifProofs Require Import SmtpSendProofs SmtpSendGenProofs SmtpSendCorollaries SmtpSendRefuted.
+From VerifProofs Require Import TextprotoProofs SmtpSendProofs SmtpSendGenProofs SmtpSendCorollaries SmtpSendRefuted.
 
 Theorem C03_source_expect_codes : gen_expects = std_expects.
 Proof. exact gen_expects_std. Qed.
@@ -66,6 +66,18 @@ Theorem C03_render_failure_not_delivered : forall (F : fixes), dialogue_repaired
           ms (o_results o).
 Proof. exact render_failure_not_delivered. Qed.
 Print Assumptions C03_render_failure_not_delivered.
+
+(* [dotcanon] is what it claims to be: what the receiving side decodes from what net/textproto's dot-writer
+   puts on the wire (dot-stuffing, LF -> CRLF, final CRLF, ".CRLF"), for every content and every chunking *)
+Theorem C03_dot_roundtrip : forall chunks : list bytes,
+  dot_decode (dot_encode chunks) = Some (dotcanon (concat chunks), []).
+Proof. exact dot_roundtrip. Qed.
+Print Assumptions C03_dot_roundtrip.
+
+Theorem C03_dot_chunk_independent : forall chunks : list bytes,
+  dot_encode chunks = dot_encode [concat chunks].
+Proof. exact dot_encode_chunk_independent. Qed.
+Print Assumptions C03_dot_chunk_independent.
 
 (* the original code commits a fragment and tells nobody: witness, replayed on the real code in corpus/C03.txt *)
 Theorem C03_partial_commit_before_fix_refuted :
